@@ -15,7 +15,7 @@ def client_runs(run, n, props):
         dist = k_ == 3 or (k_ > 3 and rng.random() < 0.35)
         e = E.gen_election(rng, size=rng.choice(["small", "medium"]),
                            roles=["reporting"] * 6 + ["partial"] * 3 + ["zero-percent", "blocklisted", "no-expected-vote"],
-                           min_reporting=14, district=dist, many_districts=dist and rng.random() < 0.7, unexpected=not dist)
+                           min_reporting=14, district=dist, many_districts=((rng.random() < 0.7 or k_ == 3) if dist else False), unexpected=not dist)
         tiny = (not dist) and (k_ < 2 or rng.random() < 0.35)   # the first two runs of every pass have tiny counties
         if tiny:
             # county units, some of them tiny and almost fully counted: every county is its own group at county level, half a vote
